@@ -110,6 +110,7 @@ MInit ==
       sig |-> <<>>,        \* payload -> plain entity whose auto-despawn signal travels in it
       doomedE |-> {},      \* plain entities whose signal has been released: the next GC must despawn them
       immk |-> {},         \* <<r, i>> of ops that are immediate calls from an exclusive body
+      pdead |-> {},        \* payloads of events one of whose registered listeners / targets was already despawned
       deadop |-> FALSE,    \* some register / revoke op named an entity that was already despawned when it was applied
       taint |-> {},        \* commands whose start overlapped another pending delivery to the same system (finding F1)
       taintsys |-> {},     \* systems hit by finding F1 in the current tree: their tracker entries stay shifted until they drain
@@ -443,7 +444,9 @@ OnSched(m, o) ==
                   THEN [m7 EXCEPT !.pay = Put(@, p, [PayRec(m7, p) EXCEPT !.out = Len(o.reactors), !.zero = (Len(o.reactors) = 0)]),
                                   !.dinfo = IF o.data # 0 THEN Put(@, o.data, [ty |-> o.ty, e |-> o.ent, p |-> p]) ELSE @]
                   ELSE m7
-            m9 == Chk(m8, (o.data # 0) <=> (Len(o.reactors) > 0 /\ o.trig \in {"bc", "eev"}), "C05",
+            deadl == p # 0 /\ \E x \in Range(RegsFor(m, o.trig, o.ty, o.ent)) : x.s \notin m.alive
+            m8b == IF deadl THEN [m8 EXCEPT !.pdead = @ \cup {p}] ELSE m8
+            m9 == Chk(m8b, (o.data # 0) <=> (Len(o.reactors) > 0 /\ o.trig \in {"bc", "eev"}), "C05",
                       "event bookkeeping entity does not match the number of listeners")
         IN [m9 EXCEPT !.owed = @ \o owe]
     ELSE IF o.trig = "rem"
@@ -589,7 +592,10 @@ OnRun(m, o) ==
         tainted == t.k \in m.taint \/ c0.s \in m.taintsys
         m4 == IF bad THEN V(m3, "C03", IF tainted THEN F1Why
                                        ELSE "a run did not see exactly the data of the event that caused it") ELSE m3
-        m5 == IF surplus THEN V(m4, "C04", IF tainted THEN F1Why
+        \* a removal / despawn reaction must carry the right entity (C08)
+        m4b == IF bad /\ ~tainted /\ (c.kind = "desp" \/ (c.kind = "ereact" /\ c.rk = "rem"))
+               THEN V(m4, "C08", "a removal or despawn reaction did not carry the entity it was scheduled for") ELSE m4
+        m5 == IF surplus THEN V(m4b, "C04", IF tainted THEN F1Why
                                            ELSE "a run saw event data that does not belong to it") ELSE m4
         m6a == IF bad /\ other THEN V(m5, "C12", IF tainted THEN F1Why ELSE "a run saw the data of another delivery from the same sender") ELSE m5
         late == OlderPostponed(mS, t.k)
@@ -741,7 +747,9 @@ OnQuiesce(m, o) ==
         m4 == Chk(m4a, ~stale, "C18", "a command for a despawned target was neither skipped nor was its payload released")
         unrel == \E p \in DOMAIN m.pay : ~m.pay[p].dropped
         unrel0 == FALSE
-        m5 == Chk(m4, ~unrel /\ ~unrel0, "C05", "an event payload was not released by the end of its tree")
+        m5a == Chk(m4, ~unrel /\ ~unrel0, "C05", "an event payload was not released by the end of its tree")
+        m5 == IF \E p \in m.pdead : p \in DOMAIN m.pay /\ ~m.pay[p].dropped
+              THEN V(m5a, "C18", "the payload of an event that had a despawned listener was not released") ELSE m5a
         \* removals and despawns a completed poll should have reported
         lateRem == \E i \in DOMAIN m.pendRem : m.pendRem[i].seen
                       /\ \E x \in Range(m.reg) : x.id \in m.pendRem[i].then /\ x.s \in m.alive
